@@ -3,6 +3,7 @@ package h
 import (
 	"fmt"
 	"reflect"
+	"strings"
 	"testing"
 	"time"
 
@@ -171,7 +172,7 @@ func runC24(t *testing.T, scAny any, trace bool) *Outcome {
 					o.Vio("C24.rejected-update-changed-configuration", "kind="+st.Kind, "%s was rejected (%v) but GetExportOptions changed: %v", name, uerr, diffView(tuningView(before), tuningView(after)))
 				}
 			} else {
-				if st.Kind != "tuning" && st.Opt.Squash != "" && st.Opt.Squash != curSquash {
+				if st.Kind != "tuning" && st.Opt.Squash != "" && !strings.EqualFold(st.Opt.Squash, curSquash) {
 					o.Vio("C24.squash-change-accepted", "kind="+st.Kind, "%s: a Squash change from %q to %q was accepted at runtime", name, curSquash, st.Opt.Squash)
 				}
 				if st.Kind != "policy" {
@@ -250,6 +251,9 @@ func genC24(r *simrt.Rand, tier string) any {
 		st.Opt.Squash = sc.Init.Squash
 		if r.Pct(25) {
 			st.Opt.Squash = []string{"all", "root", "none"}[r.Int(3)]
+		} else if r.Pct(15) && sc.Init.Squash != "" {
+			// the same mode in another spelling (modes are case-insensitive): accepted or refused, the update is all-or-nothing
+			st.Opt.Squash = []string{strings.ToUpper(sc.Init.Squash), strings.ToUpper(sc.Init.Squash[:1]) + sc.Init.Squash[1:]}[r.Int(2)]
 		}
 		sc.Steps = append(sc.Steps, st)
 	}
@@ -269,7 +273,7 @@ func shrinkC24(scAny any) []any {
 
 func init() {
 	Register(&Prop{ID: "C24", Level: "exploration",
-		Rule: "one case = a server constructed from drawn options followed by 1-6 runtime updates (UpdateExportOptions, UpdateTuningOptions, UpdatePolicyOptions) whose numeric and duration fields are drawn from {zero, negative, small, normal}, Timeouts from {nil, all-zero, partial, full, negative}, RateLimitConfig nil or set, Squash equal or changed; after every update: GetExportOptions is compared field by field with what absnfs.New makes of the same option values (differential against construction, no default constants mirrored), every setting in force must be positive, a rejected update must leave GetExportOptions identical, a Squash change must be rejected, and a client on the simulated network must still get LOOKUP, READ (>=1 byte) and WRITE served; non-trivial = at least one update; distinct by event digest",
+		Rule: "one case = a server constructed from drawn options followed by 1-6 runtime updates (UpdateExportOptions, UpdateTuningOptions, UpdatePolicyOptions) whose numeric and duration fields are drawn from {zero, negative, small, normal}, Timeouts from {nil, all-zero, partial, full, negative}, RateLimitConfig nil or set, Squash equal, changed, or the same mode in another letter case; after every update: GetExportOptions is compared field by field with what absnfs.New makes of the same option values (differential against construction, no default constants mirrored), every setting in force must be positive, a rejected update must leave GetExportOptions identical, a Squash change must be rejected, and a client on the simulated network must still get LOOKUP, READ (>=1 byte) and WRITE served; non-trivial = at least one update; distinct by event digest",
 		Gen:  genC24, New: func() any { return &C24Scn{} }, Run: runC24, Shrink: shrinkC24, Real: seqReal, Stubbed: seqStubbed})
 	_ = nfsclient.NFS3_OK
 }
